@@ -29,6 +29,7 @@ def main():
             src = open(path).read()
             if src.count(m["old"]) != 1:
                 rows.append((m["name"], "PATCH-FAILED", src.count(m["old"])))
+                print(rows[-1], flush=True)
                 continue
             open(path, "w").write(src.replace(m["old"], m["new"]))
             for prop in m["props"]:
